@@ -280,7 +280,8 @@ def run(rep):
     standard_run(rep, PID, gen_case, nontrivial, "$encode result differs", 4000, 150000,
                  "scalars, flat and nested maps/lists (list-valued and empty-string entries) x every transform and stacks of up "
                  "to 3, valid and invalid arguments; judged by the model (Lean base64/SHA-256) and by independent Python "
-                 "implementations (hashlib, base64); codec formats (json/yaml/toml text) are compared in C05/C04",
+                 "implementations (hashlib, base64); codec stage: values with look-alike and newline-terminated strings through "
+                 "$encode json/yaml/toml (parsed by independent parsers), $decode of that text, and $decode+$encode in one map",
                  oracle=oracle)
     import random
     codec_roundtrip(rep, random.Random(rep.seed + 77), 1500 if rep.tier == "quick" else 40000)
